@@ -208,6 +208,11 @@ type Exec struct {
 	stallClient map[string]bool
 	// FrameHook, if set, sees every frame at delivery time (dir "req"/"resp").
 	FrameHook func(c *Conn, dir string, key, ver int16, body []byte)
+	// RespRewrite, if set (in Setup), sees every decoded broker response of
+	// the controlled clients when it arrives at the proxy, in every mode; a
+	// non-nil result replaces the response (an environment seam: e.g. report
+	// a partition as leaderless in Metadata). Must be deterministic.
+	RespRewrite func(c *Conn, key, ver int16, resp kmsg.Response) kmsg.Response
 	Data    any // scenario state
 }
 
@@ -522,6 +527,15 @@ func (c *Conn) readServer() {
 			return
 		}
 		s.resp, s.seq = b, seq
+		if x.RespRewrite != nil && !s.req.handshake {
+			// environment seam: the scenario may alter what the broker
+			// answered (e.g. report a partition as leaderless), in every mode
+			if r, ok := DecodeResponse(b, s.req.key, s.req.ver); ok {
+				if nr := x.RespRewrite(c, s.req.key, s.req.ver, r); nr != nil {
+					s.resp = EncodeResponse(nr, corr)
+				}
+			}
+		}
 		if s.rewrite != 0 {
 			if fb := FabricateError(s.req.b, s.rewrite); fb != nil {
 				s.resp = fb
